@@ -99,7 +99,8 @@ fn get_server_values_impl(socket: &mut UdpSocket) -> GDResult<HashMap<String, St
 }
 
 fn extract_players(server_vars: &mut HashMap<String, String>, players_maximum: u32) -> GDResult<Vec<Player>> {
-    let mut players_data: Vec<HashMap<String, String>> = Vec::with_capacity(players_maximum as usize);
+    let _ = players_maximum; // a number sent by the server is not an amount of memory to reserve
+    let mut players_data: Vec<HashMap<String, String>> = Vec::new();
 
     server_vars.retain(|key, value| {
         let split: Vec<&str> = key.split('_').collect();
